@@ -33,6 +33,10 @@ def gen_lib(rng, tag, data=True, dunders=None):
             if c["name"].startswith("C") and rng.random() < 0.4:
                 k = rng.choice([1, 1, 2, 3])
                 c["dunder"] = sorted(rng.sample(dunders, min(k, len(dunders))))
+                if c["kind"] == "task":
+                    # `submit` probes the optional hook `task_outputs` with hasattr(): a catch-all __getattr__ on a task class
+                    # answers it with None (outside C12/C13: noted in the report, not generated)
+                    c["dunder"] = [d for d in c["dunder"] if d != "getattr"]
     if data:
         for c in lib["classes"]:
             if c["name"].startswith("C") and rng.random() < 0.35:
@@ -216,6 +220,10 @@ def make_cases(ctx, rng, kind, nlibs, per, tag):
                 g = gen_graph(rng, lib, max_nodes=rng.choice([2, 4, 6, 9, 12]))
                 if len(g["nodes"]) > 1 or rng.random() < 0.25:
                     break
+            if kind == "c12" and len(g["nodes"]) > 10 and identlib.has_cycle(g):
+                # the cache-free identifier specification re-hashes a cyclic region once per path (SHA-256 runs in the Lean
+                # interpreter): large cyclic graphs are left to C01/C13, C12 keeps cyclic graphs of at most 10 nodes
+                g = gen_graph(rng, lib, max_nodes=rng.choice([4, 6, 8]))
             c = {"lib": li, "kind": kind, "graph": g, "root_is_task": kind_of(lib, g["nodes"][0]["cls"]) == "task"}
             if kind == "c12":
                 c["value"] = gen_value(rng, g) if rng.random() < 0.5 else None
